@@ -23,13 +23,32 @@ type judge struct {
 	cs     *Case
 	b      *built
 	direct map[string]bool // clauses that already failed on the direct save path (same YPos)
+
+	// history families: the case that is recorded (and replayed) is the whole history, cs only
+	// describes the chunk under comparison
+	rec *Case
+	ctx string
 }
 
 func (j *judge) fail(class, detail string) {
 	cs := *j.cs
+	if j.rec != nil {
+		rec, ctx := cloneCase(j.rec), j.ctx
+		recordFailure(class, rec.Ordinal, func() engine.Failure {
+			return engine.Failure{Detail: fmt.Sprintf("%s; chunk under comparison [%s]: %s", ctx, describe(&cs), detail), Case: rec}
+		})
+		return
+	}
 	recordFailure(class, cs.Ordinal, func() engine.Failure {
 		return engine.Failure{Detail: fmt.Sprintf("chunk[%s]: %s", describe(&cs), detail), Case: cs}
 	})
+}
+
+func cloneCase(c *Case) Case {
+	d := *c
+	d.Seq = append([]int(nil), c.Seq...)
+	d.Steps = append([]string(nil), c.Steps...)
+	return d
 }
 
 func describe(cs *Case) string {
@@ -135,7 +154,10 @@ func (j *judge) network() {
 		rep.Count("diagnostic/wire-layout-parsed", 1)
 	}
 	data := append(append([]byte(nil), wire...), sentinel...)
-	variants := [][2]string{{"fresh", "bytes.Reader"}, {"fresh", "plain-reader"}, {"used", "bytes.Reader"}}
+	bufWire, bufData, bufLay := wire, data, lay
+	// target, reader, writer: the plain reader gets the bytes WriteTo handed to a writer that is
+	// nothing but an io.Writer (no *bytes.Buffer, no other method)
+	variants := [][3]string{{"fresh", "bytes.Reader", "bytes.Buffer"}, {"fresh", "plain-reader", "plain-writer"}, {"used", "bytes.Reader", "bytes.Buffer"}}
 	if cs.leanNet {
 		// the network form does not carry the status: for the 2nd.. status value the chunk is the
 		// very same input, only the plain fresh read is repeated
@@ -144,6 +166,28 @@ func (j *judge) network() {
 	for _, tr := range variants {
 		{
 			target, reader := tr[0], tr[1]
+			wire, data, lay = bufWire, bufData, bufLay
+			if tr[2] == "plain-writer" {
+				pw := &plainWriter{}
+				var perr error
+				kind, frame, p := engine.Guard(func() { _, perr = b.c.WriteTo(pw) })
+				atomic.AddInt64(&convExec, 1)
+				if p {
+					j.fail("net/write/panic/"+kind+"@"+frame+"/writer=plain", "Chunk.WriteTo to a plain io.Writer panicked: "+kind+" in "+frame)
+					continue
+				}
+				if perr != nil {
+					j.fail("net/write/error/writer=plain", "Chunk.WriteTo to a plain io.Writer failed (it succeeded on a bytes.Buffer): "+perr.Error())
+					continue
+				}
+				wire = pw.b
+				data = append(append([]byte(nil), wire...), sentinel...)
+				lay = parseWire(wire)
+				if !bytes.Equal(wire, bufWire) {
+					rep.Unspec(1)
+					rep.Count("unspecified/net/bytes-written-depend-on-the-writer-type", 1)
+				}
+			}
 			dst := level.EmptyChunk(cs.Secs)
 			if target == "used" {
 				rw := richWire(cs.Secs)
@@ -172,6 +216,9 @@ func (j *judge) network() {
 			atomic.AddInt64(&convExec, 1)
 			rep.Eval(1)
 			tag := "target=" + target
+			if tr[2] == "plain-writer" {
+				tag += ",writer=plain"
+			}
 			if cs.Extra != "" && (p || rerr != nil) {
 				// e.g. a chunk without height maps is written with empty arrays the reader refuses
 				rep.Unspec(1)
@@ -204,7 +251,7 @@ func (j *judge) network() {
 		}
 	}
 	if !cs.leanNet && cs.Secs == 1 && cs.Extra == "" {
-		j.usedSame(data, len(wire))
+		j.usedSame(bufData, len(bufWire))
 	}
 }
 
@@ -282,6 +329,14 @@ func (j *judge) usedSame(data []byte, wireLen int) {
 	j.b.srcBC[0] = savedBC + int16(delta)
 	j.compareNet(dst, tag+",after-SetBlock-of-an-old-state")
 	ms.blocks[pos], ms.count, j.b.srcBC[0] = saved, savedCount, savedBC
+}
+
+// plainWriter is an io.Writer and nothing else; it copies what it is given.
+type plainWriter struct{ b []byte }
+
+func (w *plainWriter) Write(p []byte) (int, error) {
+	w.b = append(w.b, p...)
+	return len(p), nil
 }
 
 func layoutString(l wireLayout) string {
